@@ -254,6 +254,36 @@ def sym_fits_rule(F, fn, node):
     return "fits-paths", "on all %d paths the bytes drawn number at most the capacity %s" % (len(evs), sorted(caps)[0])
 
 
+def sym_bytes_k_rule(F, fn, node):
+    """unwrap of `<slice>.try_into()` to `&[u8; K]`, on the path summaries: on every path that reaches it the slice is the Ok value
+    of `u.bytes(K)` with the same K (a literal, a named constant or the const parameter) -- arbitrary's bytes(K) returns exactly K
+    bytes.  (rule, detail) | (None, why) | (None, None) = not this shape"""
+    from . import sym as S
+    recv = H.strip(node["recv"])
+    if recv.get("k") not in ("call", "mcall") or recv.get("callee") != TRY_INTO:
+        return None, None
+    kk = array_len((recv.get("targs") or ["", ""])[1])
+    if not kk:
+        return None, None
+    try:
+        sy = S.Sym(F, fn, is_effect=lambda c, a, n, st: n is recv, inline=lambda path, n: False)
+        paths = sy.run()
+    except S.TooManyPaths:
+        return None, "too many paths"
+    evs = [(p, e) for p in paths for e in p.effects if e.node is recv]
+    if not evs:
+        return None, "the conversion is not reached on the path summaries"
+    for p, e in evs:
+        src = e.args[0]
+        if not (src[0] == "proj" and src[2] == S.OK and src[1][0] == "call" and src[1][1] == BYTES and len(src[1][2]) == 2):
+            return None, "the converted slice is not the Ok value of u.bytes(K)"
+        K = src[1][2][1]
+        same = (K[0] == "lit" and str(K[1]) == kk) or (K[0] in ("path", "const") and K[1].split("::")[-1] == kk)
+        if not same:
+            return None, "u.bytes(%s) is converted to an array of %s bytes" % (S.show(K)[:30], kk)
+    return "bytes-K-paths", "on all %d paths the slice converted to &[u8; %s] is the Ok value of u.bytes(%s)" % (len(evs), kk, kk)
+
+
 def sym_prefix_rule(F, fn):
     """function-level rule for a text generator (arbitrary_str and refactorings of it), on its path summaries:
     on every path the operations on `u` are, in this order, usize::arbitrary(u), u.peek_bytes(n), [u.bytes(m)] with
@@ -437,11 +467,13 @@ def run(ctx):
                 if rule is None and kind == "call:" + UNWRAP:
                     nodes = [x for x in node_at(fn, ev["sp"]) if x.get("k") == "mcall" and x.get("callee") == UNWRAP]
                     if len(nodes) == 1:
-                        r2, d2 = sym_fits_rule(F, fn, nodes[0])
-                        if r2 is not None:
-                            rule, detail = r2, d2
-                        elif d2 is not None:
-                            detail = "%s; on the path summaries: %s" % (detail, d2)
+                        for fallback in (sym_fits_rule, sym_bytes_k_rule):
+                            r2, d2 = fallback(F, fn, nodes[0])
+                            if r2 is not None:
+                                rule, detail = r2, d2
+                                break
+                            elif d2 is not None:
+                                detail = "%s; on the path summaries: %s" % (detail, d2)
                 if rule is None and (kind == "call:" + UNWRAP or kind == "call:core::str::converts::from_utf8_unchecked" or (kind.startswith("dep-api:") and "heapless::string::String<N> as core::convert::From<&'a str>" in kind)):
                     # other spellings of the same generator: decided on the path summaries of the whole function
                     if fn["id"] not in sym_cache:
@@ -554,6 +586,10 @@ def utf8_prefix(fn, A, node):
     return None, "no from_utf8 over peek_bytes of the same Unstructured found"
 
 
+def _re_ref_array(ty):
+    return re.match(r"^&(?:'\w+ )?\[u8; N\]$", ty or "") is not None
+
+
 def transparent_cast(F, fn, A, ev, kind):
     """&*(bytes as *const [u8; N] as *const ByteArray<N>)"""
     ba = F.adt("serde_bytes::bytearray::ByteArray")
@@ -587,6 +623,15 @@ def transparent_cast(F, fn, A, ev, kind):
             break
     tys = [(f, t) for f, t, _ in reversed(chain)]
     ok = len(chain) == 2 and len(steps_all) == 2 and tys == [("&[u8; N]", "*const [u8; N]"), ("*const [u8; N]", "*const serde_bytes::bytearray::ByteArray<N>")]
+    if not ok and len(chain) == 1 and len(steps_all) == 1 and tys == [("*const [u8; N]", "*const serde_bytes::bytearray::ByteArray<N>")]:
+        # the reference-to-pointer step written as a coercion: `let p: *const [u8; N] = <expression of type &[u8; N]>;`
+        src_ty = (cur.get("ty") or "")
+        ok = _re_ref_array(src_ty) and (cur.get("ty_adj") or "") == "*const [u8; N]"
+        if not ok and cur.get("k") == "try" and src_ty == "*const [u8; N]":
+            # `<Result<&[u8; N], _>>?` coerced in the arms of the desugared match
+            inner_ty = (cur["e"].get("ty") or "")
+            m = re.match(r"^core::result::Result<(&(?:'\w+ )?\[u8; N\]), ", inner_ty)
+            ok = m is not None
     if not ok:
         return None, "pointer chain is %s (and %d cast-like expressions in the function); expected &[u8; N] -> *const [u8; N] -> *const ByteArray<N>" % (tys, len(steps_all))
     if kind.startswith("cast:"):
